@@ -6,6 +6,8 @@ package env
 
 //@ func GetEnviron
 //@   sweep                                                          [C16]
+//@   modifies om_has, om_val, om_len, om_key
+//@   ensures fresh(result)
 
 //@ func Get
 //@   trusted
